@@ -22,9 +22,20 @@ func init() {
 	parts["memfs-enum"] = func(seed uint64, tier string, replay []string) *lib.Result {
 		return corrMemfs(seed, tier, replay, "C14", fsGenOpts{enum: true, symlinks: true, users: true}, 5)
 	}
+	parts["memfs-small"] = func(seed uint64, tier string, replay []string) *lib.Result {
+		return corrMemfs(seed, tier, replay, "C02", fsGenOpts{files: true, users: true, small: true}, 6)
+	}
+	parts["memfs-small-views"] = func(seed uint64, tier string, replay []string) *lib.Result {
+		return corrMemfs(seed, tier, replay, "C11", fsGenOpts{views: true, users: true, relative: true, small: true, smallOnly: "views"}, 7)
+	}
 	parts["memfs-views"] = func(seed uint64, tier string, replay []string) *lib.Result {
 		return corrMemfs(seed, tier, replay, "C11", fsGenOpts{views: true, users: true, relative: true}, 4)
 	}
+}
+
+type wfExtra struct {
+	hist lib.History
+	dump string
 }
 
 // tempRnd extracts the random part chosen by impl for MkdirTemp/CreateTemp.
@@ -102,9 +113,33 @@ func corrMemfs(seed uint64, tier string, replay []string, prop string, opts fsGe
 	}
 	var hs []lib.History
 	var impls [][]string
+	var extraWf []wfExtra // graphs left by a refused RemoveAll: not comparable with the model (map order), still checked
 	if replay != nil {
 		fx, out := runImpl(replay)
 		hs, impls = []lib.History{fx}, [][]string{out}
+	} else if opts.small {
+		res.Rule = "bounded-exhaustive scenarios on a fresh MemFS, impl ≟ model call by call and on the node graph at the end of every sequence, wfCheck on every dumped graph: " + smallRule() + "; a sequence is cut at a refused RemoveAll (what it released depends on map order; the graph it leaves is still checked); a case is one call; distinct non-trivial = distinct (scenario, call kind, outcome, position)"
+		sh, _ := smallHistories(tier, opts.smallOnly)
+		for _, h0 := range sh {
+			m := newFsImpl()
+			h := lib.History{}
+			out := []string{}
+			for _, l := range h0 {
+				if m.dead {
+					break
+				}
+				o := m.call(l)
+				h = append(h, l)
+				out = append(out, o)
+				f := strings.Fields(l)
+				if len(f) > 2 && f[2] == "removeall" && (o == "err EACCES" || o == "err EPERM") {
+					extraWf = append(extraWf, wfExtra{append(lib.History{}, h...), m.call("fs 0 dump")})
+					break
+				}
+			}
+			hs = append(hs, h)
+			impls = append(impls, out)
+		}
 	} else {
 		r := lib.NewRng(seed*7919 + salt)
 		for k := 0; k < nh; k++ {
@@ -143,8 +178,10 @@ func corrMemfs(seed uint64, tier string, replay []string, prop string, opts fsGe
 				}
 				h = append(h, l)
 				out = append(out, o)
-				if f[2] == "removeall" && o == "err EACCES" {
+				if f[2] == "removeall" && (o == "err EACCES" || o == "err EPERM") {
 					// which entries a refused RemoveAll released depends on Go's map iteration order: end the history
+					// (the graph it leaves is still checked against the tree invariant)
+					extraWf = append(extraWf, wfExtra{append(lib.History{}, h...), m.call("fs 0 dump")})
 					break
 				}
 				if !m.dead {
@@ -203,6 +240,15 @@ func corrMemfs(seed uint64, tier string, replay []string, prop string, opts fsGe
 			}
 		}
 	}
+	for _, x := range extraWf {
+		if strings.HasPrefix(x.dump, "dump ") {
+			hs = append(hs, append(x.hist, "fs 0 dump"))
+			impls = append(impls, nil)
+			wfLines = append(wfLines, "fs wfcheck "+x.dump)
+			wfWhere = append(wfWhere, [2]int{len(hs) - 1, len(x.hist)})
+		}
+	}
+	nReal := len(hs) - len(extraWf)
 	if len(wfLines) > 0 {
 		wfOut, werr := lib.RunDriver(wfLines)
 		if werr == nil {
@@ -212,13 +258,16 @@ func corrMemfs(seed uint64, tier string, replay []string, prop string, opts fsGe
 					k, i := wfWhere[j][0], wfWhere[j][1]
 					res.Mismatches = append(res.Mismatches, lib.Mismatch{Kind: "violation", Class: "c05.impl-graph-not-wellformed",
 						What:    fmt.Sprintf("after %q the implementation's node graph violates the tree invariant (wfCheck = %s)", hs[k][i-1], o),
-						History: append(lib.History{}, hs[k][:i+1]...), Impl: []string{impls[k][i]}, Index: i})
+						History: append(lib.History{}, hs[k][:i+1]...), Impl: []string{strings.TrimPrefix(wfLines[j], "fs wfcheck ")}, Index: i})
 				}
 			}
 		}
 		res.Notes = append(res.Notes, fmt.Sprintf("wfCheck evaluated on %d dumped implementation graphs", len(wfLines)))
 	}
 	for k, h := range hs {
+		if k >= nReal {
+			break
+		}
 		for i, l := range h {
 			if i == 0 || strings.HasSuffix(l, " dump") {
 				continue
